@@ -144,6 +144,10 @@ long sysconf(int name)
 int main(void)
 {
     open_in();
+    if (getenv("SYM_FPTRAPS") != NULL) {
+        /* the floating-point environment cimba_run_experiment gives its trials: invalid-operation and divide-by-zero trap */
+        __builtin_ia32_ldmxcsr(0x1d00);
+    }
     const char *e = getenv("SYM_ENTRY");
     for (const struct sym_entry *p = sym_entries; p->name != NULL; p++) {
         if (e != NULL && strcmp(e, p->name) == 0) {
